@@ -28,6 +28,20 @@ CHECKS = {
          "round-trip PBT options -> attribute text -> options; token equality", "3/C18"),
  "C20": ("E3", "the CLI binary runs against a scripted loopback mock server: request model (query file by flags, operationName, headers, bearer), output equals served JSON and generates the same code as the SDL, every failure path leaves an existing output file untouched",
          "PBT over flags x fault scripts (fault injection) with request model", "3/C20"),
+ "C06": ("E2", "every applicable single invalidating edit (rule catalogue x every selection-set position) of generated valid documents, kept only if the model validator rejects it by exactly that rule; generation must not return Ok",
+         "PBT x exhaustive edits per base, validity model as oracle (invalid => not Ok)", "3/C06"),
+ "C07": ("E2", "each model schema rendered as SDL, bare introspection JSON and data-wrapped JSON (random styles) with the same documents and options: token strings must be identical, error classes agree",
+         "differential PBT across schema front ends", "3/C07"),
+ "C08": ("E2", "histories of 5-40 generation calls over a file tree (same content under two paths, same base name in two directories, failing files in a probe family) run sequentially or on 2-16 barrier-released threads inside one fresh process; every outcome must equal the same call alone in a fresh process",
+         "stateful PBT over call histories, differential against fresh-process reference; thread stress", "3/C08"),
+ "C13": ("E2", "exhaustive: 62 type expressions (depth 0-4) x named kinds x positions x {SDL, JSON}; the emitted syn::Type must equal an independently written Option/Vec mapping; built-in scalar aliases checked",
+         "exhaustive enumeration against an independent mapping function", "3/C13"),
+ "C16": ("E4+E1", "every JSON kind through the ID helpers in plain / flattened / variant wrapper structs (in-process), and compiled programs with every ID type expression up to depth 3 next to String neighbours in plain, flattened and variant positions",
+         "PBT + exhaustive ID expressions against a coercion model", "3/C16"),
+ "C17": ("E2", "adversarial grammar (spread cycles, input cycles, deep nesting, degenerate abstract types, broken documents, JSON with missing members) in isolated worker processes with a watchdog; thorough adds a coverage-guided libFuzzer campaign over the same decoder",
+         "PBT + coverage-guided fuzzing (libFuzzer), termination oracle (Ok / Err / panic message; no signal, no hang)", "3/C17"),
+ "C19": ("E3", "the CLI binary on generated inputs x flag combinations x placements x formatting; the written file must equal header + tokens of the library called in-process with the harness's own flag table; invalid documents must fail without touching the directory",
+         "black-box PBT, differential against the library", "3/C19"),
 }
 NOT_YET = {}
 def main():
